@@ -628,7 +628,28 @@ func (x *Exec) debugRef(s *State, d *ssa.DebugRef) {
 	} else {
 		fr.names[name] = v
 		delete(fr.addrs, name)
+		// history of distinct bindings, for ver(name, i) in specifications
+		i := 0
+		for {
+			if _, ok := fr.names[fmt.Sprintf("%s#%d", name, i)]; !ok {
+				break
+			}
+			i++
+		}
+		if i == 0 || !sameVal(fr.names[fmt.Sprintf("%s#%d", name, i-1)], v) {
+			fr.names[fmt.Sprintf("%s#%d", name, i)] = v
+		}
 	}
+}
+
+func sameVal(a, b Val) bool {
+	if a.K != b.K {
+		return false
+	}
+	if a.K == vScalar {
+		return a.T.S == b.T.S
+	}
+	return a.Arr.S == b.Arr.S && a.Off.S == b.Off.S && a.Len.S == b.Len.S
 }
 
 // doPanic handles an explicit panic instruction.
